@@ -3,7 +3,7 @@
 From Coq Require Import ZArith List Bool.
 From Model Require Import PyBase Graph Stereo StereoRegistry.
 From Gen Require Import StereoTables.
-From Proofs Require Import StereoProofs StereoRegistryProofs.
+From Proofs Require Import StereoProofs StereoRegistryProofs StereoRegistryDisjoint.
 Import ListNotations.
 Open Scope Z_scope.
 
@@ -191,6 +191,8 @@ Theorem C12_sg_cumulene_env : forall (fs : Z -> bool) g ps path n0 n1 n2 n3,
   In path ps /\
   exists t1 x1 r t2 y1 r', path = t1 :: x1 :: r /\ rev path = t2 :: y1 :: r' /\
     end_blocked fs g t1 x1 = false /\ end_blocked fs g t2 y1 = false /\
+    end_more_double g t1 x1 = false /\ end_more_double g t2 y1 = false /\
+    end_crowded g t1 = false /\ end_crowded g t2 = false /\
     (exists ra, end_subst g t1 x1 = n0 :: ra /\ n2 = second_of (n0 :: ra)) /\
     (exists rc, end_subst g t2 y1 = n1 :: rc /\ n3 = second_of (n1 :: rc)).
 Proof. exact sg_cum_spec. Qed.
@@ -250,21 +252,39 @@ Theorem C12_allene_terminals_maximal : forall (fs fd : Z -> bool) g ps c a b,
 Proof. exact allene_terminals_maximal. Qed.
 Print Assumptions C12_allene_terminals_maximal.
 
-(* cis/trans terminals are the ends of a maximal even chain -- _partial: EXCEPT two-atom pieces of a chain that `cumulenes`
-   cut at an atom with more than two neighbours; the unrestricted statement is false for the faithful model (next theorem) *)
-Theorem C12_cis_trans_terminals_maximal_partial : forall (fs fd : Z -> bool) g ps a b e,
+(* cis/trans terminals are the ends of a maximal even chain of double bonds: IN FULL for every well-formed molecule (before fix
+   2e29c31 this was false: the pieces of a chain cut at a hypervalent atom were registered; the witness FC=C=S(=O)=NC is now
+   part of C12_registries_example with an empty registry) *)
+Theorem C12_cis_trans_terminals_maximal : forall (fs fd : Z -> bool) g ps a b e, wf_mol g = true ->
   cumulenes fd g = Ok ps -> In ((a, b), e) (sg_cis_trans_of (sg_cumulenes_of fs g ps)) ->
   exists p, In p ps /\ odd_len p = false /\ chain (dbl_adj fd g) p /\ a = first_z p /\ b = last_z p /\
-            (List.length p = 2%nat \/ (In a (terminals_of (dbl_adj fd g)) /\ In b (terminals_of (dbl_adj fd g)))).
-Proof. exact cis_trans_terminals_maximal_partial. Qed.
-Print Assumptions C12_cis_trans_terminals_maximal_partial.
+            In a (terminals_of (dbl_adj fd g)) /\ In b (terminals_of (dbl_adj fd g)).
+Proof. exact cis_trans_terminals_maximal. Qed.
+Print Assumptions C12_cis_trans_terminals_maximal.
 
-Theorem C12_cis_trans_terminals_maximal_refuted :
-  exists g ps e, wf_mol g = true /\ cumulenes el_double g = Ok ps /\
-    In ((2, 3), e) (sg_cis_trans_of (sg_cumulenes_of el_single g ps)) /\
-    ~ In 3 (terminals_of (dbl_adj el_double g)).
-Proof. exact cis_trans_terminals_maximal_refuted. Qed.
-Print Assumptions C12_cis_trans_terminals_maximal_refuted.
+(* the ends of every registered path (cis/trans or allene) are terminals of the double-bond graph *)
+Theorem C12_registered_ends_terminal : forall (fs fd : Z -> bool) g, wf_mol g = true -> forall ps p e,
+  cumulenes fd g = Ok ps -> In (p, e) (sg_cumulenes_of fs g ps) ->
+  In (first_z p) (terminals_of (dbl_adj fd g)) /\ In (last_z p) (terminals_of (dbl_adj fd g)).
+Proof. exact sg_ends_terminal. Qed.
+Print Assumptions C12_registered_ends_terminal.
+
+(* registered end atoms are planar: no second double bond, at most three non-special neighbours (part of C12_sg_cumulene_env) *)
+
+(* DISJOINTNESS: two different entries of stereogenic_cumulenes of a well-formed molecule share no atom; so the derived registries
+   (_stereo_cis_trans_terminals / centers / counterpart, _stereo_allenes_centers) never assign one key from two paths *)
+Theorem C12_registered_paths_disjoint : forall (fs fd : Z -> bool) g, wf_mol g = true -> forall ps,
+  cumulenes fd g = Ok ps ->
+  ForallOrdPairs (fun e1 e2 => forall v, In v (fst e1) -> In v (fst e2) -> False) (sg_cumulenes_of fs g ps).
+Proof. exact sg_cumulenes_disjoint. Qed.
+Print Assumptions C12_registered_paths_disjoint.
+
+Theorem C12_disjoint_example :
+  wf_mol ex_two = true /\ cumulenes el_double ex_two = Ok [[2; 3]; [4; 5; 6]] /\
+  sg_cumulenes_of el_single ex_two [[2; 3]; [4; 5; 6]] = [([2; 3], (1, 4, None, None)); ([4; 5; 6], (3, 7, None, Some 8))] /\
+  terminals_of (dbl_adj el_double ex_two) = [2; 3; 4; 6].
+Proof. exact disjoint_example. Qed.
+Print Assumptions C12_disjoint_example.
 
 (* non-vacuity: a tetrasubstituted allene renumbered by n -> 2n + 10, a tetrahedral centre, the cut chain *)
 Theorem C12_registries_example :
@@ -275,6 +295,6 @@ Theorem C12_registries_example :
              r_sg_al (rn_reg ex_s r) = [(18, (12, 22, Some 16, Some 24))]) /\
   (exists r, registries_real ex_th = Ok r /\ r_tetrahedrons r = [2; 3] /\ r_sg_th r = [(2, [1; 3; 4])]) /\
   (exists r, registries_real ex_cut = Ok r /\
-             r_sg_ct r = [((2, 3), (1, 4, None, None)); ((3, 4), (2, 5, None, Some 6)); ((6, 4), (7, 3, None, Some 5))]).
+             r_cumulenes r = [[2; 3]; [3; 4]; [5; 4]; [6; 4]] /\ r_sg_cum r = [] /\ r_sg_ct r = []).
 Proof. exact registries_example. Qed.
 Print Assumptions C12_registries_example.
